@@ -220,6 +220,8 @@ class FakeSocket(_Conn):
         return d, ('127.0.0.1', 502)
 
     def close(self):
+        if not self.closed:
+            self.world.yield_point('close')
         try:
             self._tx_flush()
         except OSError:
@@ -281,6 +283,8 @@ class FakeSerial(_Conn):
         return d
 
     def close(self):
+        if not self.closed:
+            self.world.yield_point('close')
         try:
             self._tx_flush()
         except OSError:
@@ -302,6 +306,7 @@ class World(object):
         self.scheduler = scheduler
         if scheduler is not None:
             scheduler.clock = self.clock
+            scheduler.on_unlock = lambda name: self.log.append(('unlock', name))
         self._saved = []
 
     def flush_writes(self):
